@@ -113,11 +113,11 @@ func specOfNamed(name string) *shapeSpec {
 
 var c05Ints = []int{0, 1, -1, math.MaxInt64, math.MinInt64, 42}
 var c05Floats = []float64{0.0, math.Copysign(0, -1), 2.5, 2.0, math.MaxFloat64, 5e-324, -1e21}
-var c05Strings = []string{"", "a", "q\"b\\c", "l1\nl2\tt", "\x00é€", " # ; ", "C:\\tmp\\", "\\", "\"", "'`\r"}
+var c05Strings = []string{"", "a", "q\"b\\c", "l1\nl2\tt", "\x00é€", " # ; ", "C:\\tmp\\", "\\", "\"", "'`\r", "2.5", "true"}
 var c05Bools = []bool{false, true}
 
 // largest per-kind value alphabet (value indices are taken modulo the kind's own alphabet size)
-const c05MaxAlpha = 10
+const c05MaxAlpha = 12
 
 func litInt(x int) string {
 	switch {
@@ -275,7 +275,8 @@ func (b *builder) build(s *shapeSpec, v reflect.Value, name string, salt int, sb
 				}
 			}
 			if hasName {
-				inner = "in" + strconv.Itoa(salt)
+				// names with dots: the key of a nested block is type.name, cut at the first dot
+				inner = []string{"in0", "v1.2", "x.", ".y", "a.b.c"}[(salt+b.vi)%5]
 				fmt.Fprintf(sb, "%sdef %s %q {\n", indent, key, inner)
 			} else {
 				fmt.Fprintf(sb, "%sdef %s {\n", indent, key)
